@@ -276,6 +276,26 @@ func (rd *reader) closeCodeTable(rule string, checkReject, checkAccept bool) {
 			if t.Kind == core.KParam && t.Ref == param {
 				return constant.MakeInt64(code), true
 			}
+			// v, ok := table[code]: component 0 is the value (false when absent), component 1 is presence
+			if t.Kind == core.KExtract && t.Args[0].Kind == core.KLookup && t.Args[0].Args[0].Kind == core.KLoad && t.Args[0].Args[0].Args[0].Kind == core.KGlobal {
+				lk := t.Args[0]
+				g := lk.Args[0].Args[0].Ref.(*ssa.Global)
+				if tab, ok := tables[g]; ok {
+					if k, okk := x.Eval(lk.Args[1], func(u *core.Term) (constant.Value, bool) {
+						if u.Kind == core.KParam && u.Ref == param {
+							return constant.MakeInt64(code), true
+						}
+						return nil, false
+					}); okk {
+						kv, _ := constant.Int64Val(k)
+						val, present := tab[kv]
+						if t.N == 1 {
+							return constant.MakeBool(present), true
+						}
+						return constant.MakeBool(val), true
+					}
+				}
+			}
 			if t.Kind == core.KLookup && t.Args[0].Kind == core.KLoad && t.Args[0].Args[0].Kind == core.KGlobal {
 				g := t.Args[0].Args[0].Ref.(*ssa.Global)
 				if tab, ok := tables[g]; ok {
